@@ -16,24 +16,33 @@ META = {
                  "histories, lock-step simulation sparse/dense, ownership argument for aliasing) + decision expressions "
                  "regenerated from mesh_attributes.py / data_container.py on every run + kernel-checked correspondence "
                  "batches on generated histories + independent dict-with-default oracle",
-    "level_text": "Machine-checked Coq theorems (closed under the global context; unbounded in history length, container size, "
-                  "number of attributes, arity, keys) about an executable model of mesh_attributes.py and of the attribute "
+    "level_text": "Machine-checked Coq theorems (25, all closed under the global context; unbounded in history length, container "
+                  "size, number of attributes, arity, keys) about an executable model of mesh_attributes.py and of the attribute "
                   "plumbing of data_container.py. FULL: structural invariant incl. alignment along every history (append, += "
                   "list/tuple/set, += container, += self, refused appends incl. a corner list with an item that cannot be "
                   "unpacked, clear of the container, register_array_as_attribute); total-map laws (read = pure function, "
-                  "read-after-write with the exact stored form `written`, frame, refused writes change nothing, defaults after "
-                  "create/clear, growth keeps values); same acceptance decision in both storages = exact arity + bool->int->float "
-                  "widening of every component; dense bounds test fires exactly outside [0,n) (on the generated expression and "
-                  "along every history); no aliasing: an update through a reference obtained by reading (a,i) - or through an "
-                  "array exported by as_array - changes no other entry, whatever happens in between; len/iteration/`in` "
-                  "semantics; create_attribute(size=len) is the plain creation, any other size keeps its offset. PARTIAL: "
-                  "sparse = dense (lock-step simulation incl. in-place updates attr[k][c]=x) under two guards - strings fit the "
-                  "dense fixed width, updates hit written entries. REFUTED with witnesses (2 known findings, replayed on the "
-                  "implementation every run): in-place update of a never-written entry (dense writes through, sparse does not); "
-                  "strings longer than Type.dtype's 32 characters (dense/as_array cut, sparse scalar keeps). 6 defects repaired "
-                  "by fix: commits. Decision expressions / tables / growth amounts / dtype width are regenerated from the source "
-                  "on each run; the state machine is tied to the code by kernel-evaluated correspondence batches on generated "
-                  "lock-step histories; an independent dict-with-default oracle searches for failing inputs.",
+                  "read-after-write with the exact stored form `written`, frame for every operation that does not touch the "
+                  "entry, law of deletion, refused writes change nothing, defaults after create/clear, growth keeps values) and "
+                  "their history-level form `last value written or else the default` (C05_last_write_or_default); acceptance: "
+                  "both storages run one decision = exact arity + bool->int->float widening of every component, and along every "
+                  "history a write is accepted iff the value is storable (that decision + numpy can represent it) and, dense "
+                  "only, the index is an element (C05_write_accepted_iff); dense bounds test fires exactly outside [0,n) (on the "
+                  "generated expression and along every history); no aliasing: an update through a reference obtained by reading "
+                  "(a,i), attr[k][c]=x in one statement (C05_update_frame), or an update of an array exported by as_array "
+                  "changes no other entry; array export: same shape and dtype in both storages (C05_export_shape) and row k = "
+                  "what attr[k] reads (C05_export_is_reads); len/iteration/`in`; create_attribute(size=len) is the plain "
+                  "creation, any other size keeps its offset. PARTIAL: sparse = dense (lock-step simulation incl. attr[k][c]=x "
+                  "and export shapes) under three guards named in the statement - reads/writes address elements of the "
+                  "container, custom default strings fit the fixed width, updates hit written entries. REFUTED with witnesses (3 "
+                  "narrowly keyed known findings, each replayed on the implementation every run): in-place update of a "
+                  "never-written entry (dense writes through, sparse does not); strings longer than Type.dtype's 32 characters "
+                  "(cut on write by both storages, a long custom default by dense only); the sparse storage accepts indices "
+                  "outside the container. 8 defects repaired by fix: commits. Decision expressions / tables / growth amounts / "
+                  "dtype width / export shapes / scalar-default test are regenerated from the source on each run; the state "
+                  "machine is tied to the code by kernel-evaluated correspondence batches on generated lock-step histories; an "
+                  "independent dict-with-default oracle searches for failing inputs. Tested only (not theorems): numpy's own "
+                  "semantics (allocation, views, dtype conversion), sparse Snap/len/iteration agreement (storage specific), Mut "
+                  "through long-lived references inside the agreement.",
     "level_note": "Decisions. (a) The property's 'same answers after any sequence of writes' is read with attr[k][c] = x on a "
                   "WRITTEN entry being a write (both storages hand out a reference to what they store - the test-suite does "
                   "exactly this): proved to agree after repair accde53. On a NEVER-written entry nothing is stored in the sparse "
